@@ -24,58 +24,59 @@ open GeosModel GeosModel.WKB
 
 /-- **reject or well-formed**: a geometry returned by the WKB reader satisfies the invariants of all
 thirteen constructors (so writers and accessors applied to it are inside their preconditions). -/
-theorem reject_or_wf (bs : List UInt8) (g : Geom) (h : read bs = .ok g) : WFG g.g = true :=
+theorem reject_or_wf (arc : ArcOracle) (bs : List UInt8) (g : Geom) (h : read arc bs = .ok g) : WFG arc g.g = true :=
   read_wf bs g h
 
-theorem readHex_reject_or_wf (cs : List Char) (g : Geom) (h : readHex cs = .ok g) : WFG g.g = true := by
+theorem readHex_reject_or_wf (arc : ArcOracle) (cs : List Char) (g : Geom) (h : readHex arc cs = .ok g) :
+    WFG arc g.g = true := by
   simp only [GeosModel.WKB.readHex] at h
   cases hd : hexDecode cs with
   | none => simp [hd] at h
   | some bs => simp only [hd] at h; exact read_wf bs g h
 
 /-- the depth budget `read` supplies (input length + 1) is never exhausted -/
-theorem read_never_out_of_fuel (bs : List UInt8) : read bs ≠ .error .fuel := read_fuel_ok bs
+theorem read_never_out_of_fuel (arc : ArcOracle) (bs : List UInt8) : read arc bs ≠ .error .fuel := read_fuel_ok bs
 
 /-- **recursion depth ≤ length / 5 + 1**: with more than `length / 5` nested activations allowed the
 reader never needs another one -/
-theorem depth_le (fuel : Nat) (o : Order) (bs : List UInt8) (h : bs.length < 5 * fuel) :
-    readGeom fuel o bs ≠ .error .fuel := by
-  have := readGeom_good fuel o bs h
-  cases hr : readGeom fuel o bs with
+theorem depth_le (arc : ArcOracle) (fuel : Nat) (o : Order) (bs : List UInt8) (h : bs.length < 5 * fuel) :
+    readGeom arc fuel o bs ≠ .error .fuel := by
+  have := readGeom_good (arc := arc) fuel o bs h
+  cases hr : readGeom arc fuel o bs with
   | error e => simp only [hr, Good3] at this; simpa using this
   | ok v => simp
 
 /-- a successful (nested) read hands back a suffix that is no longer than what it was given -/
-theorem consumes_monotonically (fuel : Nat) (o o' : Order) (bs bs' : List UInt8) (r : G × Int)
-    (hl : bs.length < 5 * fuel) (h : readGeom fuel o bs = .ok (r, o', bs')) : bs'.length ≤ bs.length := by
-  have := readGeom_good fuel o bs hl
+theorem consumes_monotonically (arc : ArcOracle) (fuel : Nat) (o o' : Order) (bs bs' : List UInt8) (r : G × Int)
+    (hl : bs.length < 5 * fuel) (h : readGeom arc fuel o bs = .ok (r, o', bs')) : bs'.length ≤ bs.length := by
+  have := readGeom_good (arc := arc) fuel o bs hl
   simpa [h, Good3] using this
 
 /-- "the recursion depth is bounded by the constant `D`" -/
-def DepthBounded (D : Nat) : Prop := ∀ bs : List UInt8, readGeom D .le bs ≠ .error .fuel
+def DepthBounded (arc : ArcOracle) (D : Nat) : Prop := ∀ bs : List UInt8, readGeom arc D .le bs ≠ .error .fuel
 
 /-- **no constant bounds the recursion depth**: `d` nested collections around a point (9 d + 21 bytes) are
 accepted, and reading them needs exactly `d + 1` nested activations of `readGeometry`. -/
-theorem depth_unbounded (d : Nat) :
-    ∃ bs : List UInt8, bs.length = 9 * d + 21 ∧ (∃ g, read bs = .ok g) ∧
-      readGeom d .le bs = .error .fuel ∧ (∃ r, readGeom (d + 1) .le bs = .ok r) := by
+theorem depth_unbounded (arc : ArcOracle) (d : Nat) :
+    ∃ bs : List UInt8, bs.length = 9 * d + 21 ∧ (∃ g, read arc bs = .ok g) ∧
+      readGeom arc d .le bs = .error .fuel ∧ (∃ r, readGeom arc (d + 1) .le bs = .ok r) := by
   refine ⟨nestBytes d, nestBytes_length d, ⟨⟨0, nestG d⟩, ?_⟩, ?_, ⟨((nestG d, 0), .le, []), ?_⟩⟩
-  · have h := readGeom_nest_ok d (nestBytes d).length .le [] (by rw [nestBytes_length]; omega)
+  · have h := readGeom_nest_ok (arc := arc) d (nestBytes d).length .le [] (by rw [nestBytes_length]; omega)
     simp only [List.append_nil] at h
     simp [GeosModel.WKB.read, h]
-  · simpa using readGeom_nest_fuel d .le []
-  · simpa using readGeom_nest_ok d d .le [] (Nat.le_refl _)
+  · simpa using readGeom_nest_fuel (arc := arc) d .le []
+  · simpa using readGeom_nest_ok (arc := arc) d d .le [] (Nat.le_refl _)
 
-theorem not_depthBounded (D : Nat) : ¬ DepthBounded D := by
+theorem not_depthBounded (arc : ArcOracle) (D : Nat) : ¬ DepthBounded arc D := by
   intro h
-  obtain ⟨bs, _, _, hf, _⟩ := depth_unbounded D
+  obtain ⟨bs, _, _, hf, _⟩ := depth_unbounded arc D
   exact h bs hf
 
 /-- **allocation is super-linear**: `d` nested collections, each claiming as many elements as `minMemSize`
 lets through (`remaining / 9`), 9 d bytes in all, make the reader request at least `4 d (d − 1)` bytes
 (before it fails with EOF for `d ≥ 3`). -/
-theorem alloc_superlinear (d : Nat) (hd : d < 4294967296) :
-    ∃ bs : List UInt8, bs.length = 9 * d ∧ 4 * d * (d - 1) ≤ allocOf bs := by
+theorem alloc_superlinear (arc : ArcOracle) (d : Nat) (hd : d < 4294967296) :
+    ∃ bs : List UInt8, bs.length = 9 * d ∧ 4 * d * (d - 1) ≤ allocOf arc bs := by
   refine ⟨over d, over_length d, ?_⟩
   rw [← tri_eq]
   exact allocGeom_over d _ .le (by rw [over_length]; omega) hd
@@ -90,11 +91,11 @@ def ubInput : List UInt8 :=
 
 /-- **undefined behaviour is reachable from bytes**: on `ubInput` the C++ reader reaches
 `CompoundCurve::validateConstruction`, which calls `back()` on the empty first section. -/
-theorem ub_reachable : read ubInput = .error .ubEmptySection := by rfl
+theorem ub_reachable (arc : ArcOracle) : read arc ubInput = .error .ubEmptySection := by rfl
 
 /-! non-vacuity -/
-example : ∃ bs g, read bs = .ok g := by
-  obtain ⟨bs, _, h, _⟩ := depth_unbounded 2
+example : ∃ bs g, read (fun _ => false) bs = .ok g := by
+  obtain ⟨bs, _, h, _⟩ := depth_unbounded (fun _ => false) 2
   exact ⟨bs, h⟩
 
 end GeosModel.C11.WKB
